@@ -53,11 +53,36 @@ Definition stepC (C : ty -> Prop) (R : list clause) (a : ty) (bs : list ty) : Pr
 (** Shape of the core clauses: heads and body atoms are headed by a symbol, heads are not
     FromEnv atoms, and a FromEnv atom occurs in a body only as the single premise of an
     Implemented-From-Env clause [h :- FromEnv(h)]. *)
+(** The key a clause head is indexed by: its predicate symbol and, for the predicates on types
+    ([FromEnv(ty)], [WellFormed(ty)]), the outermost type constructor. *)
+Definition hkey (a : ty) : option (N * N) :=
+  match hsym a with
+  | Some s =>
+      if (s =? WFTY)%N || (s =? FETY)%N then
+        match a with
+        | TAp _ t => match hsym t with Some x => Some (s, x + 1)%N | None => None end
+        | _ => None
+        end
+      else Some (s, 0%N)
+  | None => None
+  end.
+
+Lemma hkey_subst : forall a th k, hkey a = Some k -> hkey (subst th a) = Some k.
+Proof.
+  intros a th k H. unfold hkey in *. destruct (hsym a) as [s|] eqn:E; [|discriminate].
+  rewrite (hsym_subst _ th _ E). destruct ((s =? WFTY)%N || (s =? FETY)%N); [|exact H].
+  destruct a as [c|f t|p|i]; try discriminate. cbn [subst].
+  destruct (hsym t) as [x|] eqn:Et; [|discriminate]. now rewrite (hsym_subst _ th _ Et).
+Qed.
+
+Definition isI (a : ty) : bool :=
+  match hsym a with Some s => (1000 <=? s)%N && (s <? 2000)%N | None => false end.
+
 Definition core_clause_ok (c : clause) : bool :=
-  negb (isFa (chead c)) && headed c &&
+  negb (isFa (chead c)) && headed c && match hkey (chead c) with Some _ => true | None => false end &&
   forallb (fun b => match hsym b with Some _ => true | None => false end) (cbody c) &&
   (negb (existsb isFa (cbody c)) ||
-   match cbody c with [b] => ty_eqb b (fe (chead c)) | _ => false end).
+   (match cbody c with [b] => ty_eqb b (fe (chead c)) | _ => false end && isI (chead c))).
 
 Section Cut.
   Variable R : list clause.
@@ -67,16 +92,24 @@ Section Cut.
 
   Definition hR (a : ty) : Prop := holds (inst R) (isco co) a.
 
-  Lemma core_ok_parts : forall c, In c R ->
-    isFa (chead c) = false /\ hsym (chead c) <> None /\
-    (forall b, In b (cbody c) -> hsym b <> None) /\
-    (existsb isFa (cbody c) = true -> cbody c = [fe (chead c)]).
+  Lemma core_ok_key : forall c, In c R -> hkey (chead c) <> None.
   Proof.
     intros c Hc. pose proof (R_ok c Hc) as K. unfold core_clause_ok in K.
     repeat (apply andb_true_iff in K; destruct K as [K ?]).
-    apply negb_true_iff in K. split; [exact K|]. split; [now apply headed_hsym|]. split.
+    destruct (hkey (chead c)); [discriminate|discriminate H1].
+  Qed.
+
+  Lemma core_ok_parts : forall c, In c R ->
+    isFa (chead c) = false /\ hsym (chead c) <> None /\
+    (forall b, In b (cbody c) -> hsym b <> None) /\
+    (existsb isFa (cbody c) = true -> cbody c = [fe (chead c)] /\ isI (chead c) = true).
+  Proof.
+    intros c Hc. pose proof (R_ok c Hc) as K. unfold core_clause_ok in K.
+    repeat (apply andb_true_iff in K; destruct K as [K ?]).
+    apply negb_true_iff in K. split; [exact K|]. split; [now apply headed_hsym|]. clear H1. split.
     - intros b Hb. rewrite forallb_forall in H0. specialize (H0 b Hb). destruct (hsym b); [discriminate|discriminate H0].
-    - intro E. rewrite E in H. cbn [negb orb] in H. destruct (cbody c) as [|b [|]]; try discriminate.
+    - intro E. rewrite E in H. cbn [negb orb] in H. apply andb_true_iff in H. destruct H as [H HI].
+      split; [|exact HI]. destruct (cbody c) as [|b [|]]; try discriminate.
       apply ty_eqb_eq in H. now subst.
   Qed.
 
@@ -97,7 +130,7 @@ Section Cut.
     Variable C : ty -> Prop.
     Hypothesis C_F : forall a, C a -> isFa a = true.
     (** every trait FromEnv fact of [C] is true in [R] *)
-    Hypothesis C_true : forall a, C (fe a) -> hR a.
+    Hypothesis C_true : forall a, isI a = true -> C (fe a) -> hR a.
 
     Lemma cut_derives : forall X a,
       derives (stepC C R) (isco co) X a -> isFa a = false ->
@@ -109,7 +142,9 @@ Section Cut.
       destruct (core_ok_parts c HcR) as [Fn [Hh [Hb Hbr]]].
       destruct (existsb isFa (cbody c)) eqn:EF.
       - (* an Implemented-From-Env clause: its FromEnv premise is a fact of C, hence true *)
-        pose proof (Hbr eq_refl) as Eq.
+        destruct (Hbr eq_refl) as [Eq HI].
+        assert (Ia : isI a = true).
+        { rewrite <- Eh. unfold isI in *. destruct (hsym (chead c)) as [s0|] eqn:E0; [|discriminate]. now rewrite (hsym_subst _ th _ E0). }
         assert (Eb' : bs = [fe a]).
         { rewrite Eb, Eq. cbn [map]. rewrite fe_subst by assumption. now rewrite Eh. }
         assert (Ffe : isFa (fe a) = true).
@@ -162,18 +197,682 @@ Section Cut.
 
   Lemma unfold_unique : forall k th,
     In k R -> rrb k = true ->
-    (forall c, In c R -> hsym (chead c) = hsym (chead k) -> c = k) ->
+    (forall c, In c R -> hkey (chead c) = hkey (chead k) -> c = k) ->
     hR (subst th (chead k)) -> forall b, In b (cbody k) -> hR (subst th b).
   Proof.
     intros k th Hk Hrr Hu H b Hb. apply holds_unfold in H. destruct H as [bs [[c [th' [Hc [_ [Eh Eb]]]]] Hall]].
-    destruct (core_ok_parts c Hc) as [_ [Hh _]]. destruct (core_ok_parts k Hk) as [_ [Hhk _]].
     assert (c = k).
     { apply Hu; [exact Hc|].
-      destruct (hsym (chead c)) as [s|] eqn:E1; [|congruence]. destruct (hsym (chead k)) as [s2|] eqn:E2; [|congruence].
-      pose proof (hsym_subst _ th' _ E1) as X1. pose proof (hsym_subst _ th _ E2) as X2. rewrite Eh in X1. congruence. }
+      pose proof (core_ok_key c Hc) as K1. pose proof (core_ok_key k Hk) as K2.
+      destruct (hkey (chead c)) as [k1|] eqn:E1; [|congruence]. destruct (hkey (chead k)) as [k2|] eqn:E2; [|congruence].
+      pose proof (hkey_subst _ th' _ E1) as X1. pose proof (hkey_subst _ th _ E2) as X2. rewrite Eh in X1. congruence. }
     subst c. assert (E : subst th b = subst th' b).
     { apply subst_ext. intros i Hi. symmetry. apply (subst_inj_vars (chead k)); [exact Eh|].
       apply rrb_spec in Hrr. apply (Hrr b i Hb Hi). }
     rewrite E. apply Hall. subst bs. now apply in_map.
   Qed.
 End Cut.
+
+(** ** 3. InputTypes *)
+
+(** [inputs t]: every non-variable type occurring in the type [t], [t] included;
+    [insp a]: the input types of the arguments of an application spine (of an atom
+    [T: Tr<P..>], or of [S<P..>] without [S<P..>] itself). *)
+Fixpoint inputs (t : ty) : list ty :=
+  match t with
+  | TCon c => [t]
+  | TAp f x => t :: insp f ++ inputs x
+  | _ => []
+  end
+with insp (f : ty) : list ty :=
+  match f with
+  | TAp g y => insp g ++ inputs y
+  | _ => []
+  end.
+
+Lemma insp_inputs : forall t u, In u (insp t) -> In u (inputs t).
+Proof. intros [c|f x|k|i] u H; cbn [inputs insp] in *; try destruct H. right. exact H. Qed.
+
+Lemma inputs_subst_in : forall th t,
+  (forall u, In u (inputs t) -> In (subst th u) (inputs (subst th t))) /\
+  (forall u, In u (insp t) -> In (subst th u) (insp (subst th t))).
+Proof.
+  intro th. induction t as [c|f [IHf1 IHf2] x [IHx1 IHx2]|k|i]; cbn [inputs insp subst]; split; intros u H; try destruct H.
+  - subst u. now left.
+  - destruct H.
+  - subst u. now left.
+  - right. apply in_app_iff in H. apply in_or_app. destruct H; [left; now apply IHf2|right; now apply IHx1].
+  - apply in_app_iff in H. apply in_or_app. destruct H; [left; now apply IHf2|right; now apply IHx1].
+Qed.
+
+(** Decomposition: an input type of an instance comes from the pattern or from a value. *)
+Lemma inputs_subst_cases : forall th t,
+  (forall u', In u' (inputs (subst th t)) ->
+     (exists u, In u (inputs t) /\ u' = subst th u) \/ (exists i, occurs i t = true /\ In u' (inputs (th i)))) /\
+  (forall u', In u' (insp (subst th t)) ->
+     (exists u, In u (insp t) /\ u' = subst th u) \/ (exists i, occurs i t = true /\ In u' (inputs (th i)))).
+Proof.
+  intro th. induction t as [c|f [IHf1 IHf2] x [IHx1 IHx2]|k|i]; cbn [inputs insp subst occurs]; split; intros u' H.
+  - left. exists (TCon c). split; [now left|]. destruct H as [<-|[]]. reflexivity.
+  - destruct H.
+  - destruct H as [<-|H].
+    + left. exists (TAp f x). split; [now left|reflexivity].
+    + apply in_app_iff in H. destruct H as [H|H].
+      * destruct (IHf2 u' H) as [[u [Hu E]]|[i [Hi Hv]]].
+        -- left. exists u. split; [right; apply in_or_app; now left|exact E].
+        -- right. exists i. rewrite Hi. auto.
+      * destruct (IHx1 u' H) as [[u [Hu E]]|[i [Hi Hv]]].
+        -- left. exists u. split; [right; apply in_or_app; now right|exact E].
+        -- right. exists i. rewrite Hi, orb_true_r. auto.
+  - apply in_app_iff in H. destruct H as [H|H].
+    + destruct (IHf2 u' H) as [[u [Hu E]]|[i [Hi Hv]]].
+      * left. exists u. split; [apply in_or_app; now left|exact E].
+      * right. exists i. rewrite Hi. auto.
+    + destruct (IHx1 u' H) as [[u [Hu E]]|[i [Hi Hv]]].
+      * left. exists u. split; [apply in_or_app; now right|exact E].
+      * right. exists i. rewrite Hi, orb_true_r. auto.
+  - destruct H.
+  - destruct H.
+  - right. exists i. rewrite Nat.eqb_refl. auto.
+  - right. exists i. rewrite Nat.eqb_refl. split; [reflexivity|]. now apply insp_inputs.
+Qed.
+
+(** First-order terms: no variable in function position. *)
+Fixpoint fo (t : ty) : bool :=
+  match t with
+  | TAp f x => fo_fun f && fo x
+  | _ => true
+  end
+with fo_fun (f : ty) : bool :=
+  match f with
+  | TAp g y => fo_fun g && fo y
+  | TCon _ => true
+  | _ => false
+  end.
+
+Lemma inputs_of_value : forall th t,
+  (fo t = true -> forall i, occurs i t = true -> forall u, In u (inputs (th i)) -> In u (inputs (subst th t))) /\
+  (fo_fun t = true -> forall i, occurs i t = true -> forall u, In u (inputs (th i)) -> In u (insp (subst th t))).
+Proof.
+  intro th. induction t as [c|f [IHf1 IHf2] x [IHx1 IHx2]|k|j]; cbn [fo fo_fun occurs subst inputs insp]; split;
+    intros F i Hi u Hu; try discriminate.
+  - apply andb_true_iff in F. destruct F as [F1 F2]. apply orb_true_iff in Hi. right. apply in_or_app.
+    destruct Hi as [Hi|Hi]; [left; now apply (IHf2 F1 i Hi)|right; now apply (IHx1 F2 i Hi)].
+  - apply andb_true_iff in F. destruct F as [F1 F2]. apply orb_true_iff in Hi. apply in_or_app.
+    destruct Hi as [Hi|Hi]; [left; now apply (IHf2 F1 i Hi)|right; now apply (IHx1 F2 i Hi)].
+  - apply Nat.eqb_eq in Hi. now subst.
+Qed.
+
+Lemma hsym_map_head : forall f a, hsym (map_head f a) = option_map f (hsym a).
+Proof. intros f. induction a as [c|g IHg x _|k|i]; cbn [map_head hsym option_map]; auto. Qed.
+
+(** ** 4. Soundness of the (strict) well-formedness checks *)
+
+Definition isWFa (a : ty) : bool :=
+  match hsym a with Some s => (3000 <=? s)%N && (s <? 4000)%N | None => false end.
+Definition unwf (a : ty) : ty := map_head (fun s => s - 2000)%N a.
+Definition same_key (a b : ty) : bool :=
+  match hkey a, hkey b with Some (x, x'), Some (y, y') => (x =? y)%N && (x' =? y')%N | _, _ => false end.
+
+(** Link between an implied-bound rule [hd :- b] and the WellFormed rule for [b]: the core
+    has exactly one clause for the head symbol of [toWF b]; its head is [toWF b], it is
+    range-restricted and [toWF hd] is one of its premises. *)
+Definition ib_wf_link (R : list clause) (c : clause) : bool :=
+  match cbody c with
+  | [b] =>
+      headed c && match hsym b with Some _ => true | None => false end &&
+      existsb (fun k => ty_eqb (chead k) (toWF b) && memT (toWF (chead c)) (cbody k) && rrb k &&
+                        forallb (fun k' => negb (same_key (chead k') (chead k)) || clause_eqb k' k) R) R
+  | _ => false
+  end.
+
+(** A WellFormed(trait-ref) rule has [Implemented(trait-ref)] among its premises. *)
+Definition wf_rule_ok (c : clause) : bool :=
+  negb (isWFa (chead c)) || memT (unwf (chead c)) (cbody c).
+
+(** The impl clauses of the core. *)
+Definition is_impl (c : clause) : bool := isI (chead c) && negb (existsb isFa (cbody c)).
+Definition impl_ok (c : clause) : bool := forallb isI (cbody c) && rrb c && fo_fun (chead c).
+
+Definition wf_sys_ok (s : rsys) : bool :=
+  rsys_ok s && forallb core_clause_ok (rs_R s) && forallb (ib_wf_link (rs_R s)) (rs_IB s) &&
+  forallb wf_rule_ok (rs_R s) &&
+  forallb (fun c => negb (is_impl c) || impl_ok c) (rs_R s) &&
+  forallb (fun x => negb ((1000 <=? x)%N && (x <? 2000)%N)) (rs_co s).
+
+Definition impl_hyps (c : clause) : list ty := map fe (cbody c) ++ map fety (insp (chead c)).
+Definition strict_hyps (c : clause) : list ty := map fety (insp (chead c)).
+
+Section Sound.
+  Variable s : rsys.
+  Hypothesis sys_ok : wf_sys_ok s = true.
+
+  Let R := rs_R s.
+  Let IB := rs_IB s.
+  Let co := rs_co s.
+  Let hRs := hR R co.
+
+  (** wf.rs's impl goal, second conjunct, for one ground instantiation of the parameters. *)
+  Definition impl_wf_inst (c : clause) : Prop :=
+    forall th, (forall i, ground (th i)) ->
+      holds (stepC (clo IB (map (subst th) (impl_hyps c))) R) (isco co) (subst th (wf (chead c))).
+  (** first conjunct, STRICT: only the input types of the header are assumed. *)
+  Definition impl_wf_strict_inst (c : clause) : Prop :=
+    forall th, (forall i, ground (th i)) -> forall u, In u (flat_map insp (cbody c)) ->
+      holds (stepC (clo IB (map (subst th) (strict_hyps c))) R) (isco co) (subst th (wfty u)).
+
+  Lemma sys_parts :
+    (forall c, In c R -> core_clause_ok c = true) /\ (forall x, In x co -> isF x = false) /\
+    (forall c, In c IB -> ib_wf_link R c = true) /\ (forall c, In c R -> wf_rule_ok c = true) /\
+    (forall c, In c R -> is_impl c = true -> impl_ok c = true) /\
+    (forall x, In x co -> ((1000 <=? x)%N && (x <? 2000)%N) = false) /\
+    (forall c, In c IB -> ib_fe c = true).
+  Proof.
+    pose proof sys_ok as K. unfold wf_sys_ok, rsys_ok in K.
+    repeat (apply andb_true_iff in K; destruct K as [K ?]).
+    clear H4. rewrite forallb_forall in *. repeat split.
+    - intros c Hc. now apply H3.
+    - intros x Hx. specialize (H5 x Hx). now apply negb_true_iff in H5.
+    - intros c Hc. now apply H2.
+    - intros c Hc. now apply H1.
+    - intros c Hc Hi. specialize (H0 c Hc). rewrite Hi in H0. exact H0.
+    - intros x Hx. specialize (H x Hx). now apply negb_true_iff in H.
+    - intros c Hc. now apply H7.
+  Qed.
+
+  Lemma isI_not_co : forall a, isI a = true -> isco co a = false.
+  Proof.
+    intros a H. destruct sys_parts as [_ [_ [_ [_ [_ [K _]]]]]]. unfold isI in H. unfold isco.
+    destruct (hsym a) as [x|]; [|reflexivity]. destruct (memN x co) eqn:E; [|reflexivity].
+    apply memN_In in E. rewrite (K x E) in H. discriminate.
+  Qed.
+
+  Lemma wf_subst : forall h th, hsym h <> None -> subst th (wf h) = wf (subst th h).
+  Proof. intros. unfold wf. now apply map_head_subst. Qed.
+
+  Lemma toWF_fe_I : forall a, isI a = true -> toWF (fe a) = wf a.
+  Proof.
+    unfold toWF, fe, wf, isI. induction a as [c|g IHg x _|k|i]; intro H; cbn [map_head hsym] in *; try discriminate.
+    - apply andb_true_iff in H. destruct H as [H1 H2]. apply N.leb_le in H1. apply N.ltb_lt in H2.
+      replace ((c + 1000 =? FETY)%N) with false by (symmetry; apply N.eqb_neq; unfold FETY; lia). f_equal. lia.
+    - now rewrite IHg.
+  Qed.
+
+  Lemma unwf_wf_I : forall a, isI a = true -> unwf (wf a) = a.
+  Proof.
+    unfold unwf, wf, isI. induction a as [c|g IHg x _|k|i]; intro H; cbn [map_head hsym] in *; try discriminate.
+    - f_equal. lia.
+    - now rewrite IHg.
+  Qed.
+
+  Lemma isWFa_wf_I : forall a, isI a = true -> isWFa (wf a) = true.
+  Proof.
+    intros a H. unfold isWFa, wf, isI in *. rewrite hsym_map_head. destruct (hsym a) as [x|]; [|discriminate]. cbn [option_map].
+    apply andb_true_iff in H. destruct H as [H1 H2]. apply N.leb_le in H1. apply N.ltb_lt in H2.
+    apply andb_true_iff. split; [apply N.leb_le|apply N.ltb_lt]; lia.
+  Qed.
+
+  Let Rok := proj1 sys_parts.
+  Let coF := proj1 (proj2 sys_parts).
+
+  (** One implied-bound step preserves WellFormed-ness. *)
+  Lemma ib_step_wf : forall c b th, In c IB -> cbody c = [b] ->
+    hRs (toWF (subst th b)) -> hRs (toWF (subst th (chead c))).
+  Proof.
+    intros c b th Hc Eb H. pose proof sys_parts as SP; destruct SP as [_ [_ [K _]]]. pose proof (K c Hc) as L.
+    unfold ib_wf_link in L. rewrite Eb in L. apply andb_true_iff in L. destruct L as [L L3].
+    apply andb_true_iff in L. destruct L as [L1 L2].
+    assert (Hb : hsym b <> None) by (destruct (hsym b); [discriminate|discriminate L2]).
+    apply existsb_exists in L3. destruct L3 as [k [Hk L3]].
+    repeat (apply andb_true_iff in L3; destruct L3 as [L3 ?]).
+    apply ty_eqb_eq in L3. apply memT_In in H2. rewrite forallb_forall in H0.
+    rewrite <- toWF_subst in H by exact Hb. rewrite <- L3 in H.
+    rewrite <- toWF_subst by (now apply headed_hsym).
+    apply (unfold_unique R co Rok k th Hk H1); [|exact H|exact H2].
+    intros c0 Hc0 Es. specialize (H0 c0 Hc0). apply orb_true_iff in H0. destruct H0 as [H0|H0].
+    - apply negb_true_iff in H0. unfold same_key in H0. rewrite Es in H0.
+      pose proof (core_ok_key R Rok k Hk) as Kk. destruct (hkey (chead k)) as [[x x']|]; [|congruence].
+      rewrite !N.eqb_refl in H0. discriminate.
+    - now apply clause_eqb_eq.
+  Qed.
+
+  (** If the hypotheses are well-formed (as WellFormed atoms), so is their whole closure. *)
+  Lemma clo_wf : forall Hf, (forall h, In h Hf -> hRs (toWF h)) -> forall y, clo IB Hf y -> hRs (toWF y).
+  Proof.
+    intros Hf HH y Hc. induction Hc as [a Ha|c b th Hc Eb Gt _ IH]; [now apply HH|].
+    now apply (ib_step_wf c b th).
+  Qed.
+
+  (** WellFormed(T: Tr) entails Implemented(T: Tr). *)
+  Lemma wf_impl : forall a, isI a = true -> hRs (wf a) -> hRs a.
+  Proof.
+    intros a Ia H. apply holds_unfold in H. destruct H as [bs [[c [th [Hc [_ [Eh Eb]]]]] Hall]].
+    pose proof sys_parts as SP; destruct SP as [_ [_ [_ [K _]]]]. pose proof (K c Hc) as L. unfold wf_rule_ok in L.
+    destruct (core_ok_parts R Rok c Hc) as [_ [Hh _]].
+    assert (W : isWFa (chead c) = true).
+    { pose proof (isWFa_wf_I a Ia) as X. rewrite <- Eh in X. unfold isWFa in *.
+      destruct (hsym (chead c)) as [x|] eqn:E; [|congruence]. now rewrite (hsym_subst _ th _ E) in X. }
+    rewrite W in L. cbn [negb orb] in L. apply memT_In in L.
+    assert (E : subst th (unwf (chead c)) = a).
+    { unfold unwf. rewrite map_head_subst by exact Hh. rewrite Eh. now apply unwf_wf_I. }
+    rewrite <- E. apply Hall. subst bs. now apply in_map.
+  Qed.
+
+  (** The closure of well-formed hypotheses consists of true facts. *)
+  Lemma clo_true : forall Hf, (forall h, In h Hf -> hRs (toWF h)) ->
+    forall a, isI a = true -> clo IB Hf (fe a) -> hRs a.
+  Proof.
+    intros Hf HH a Ia Hc. apply wf_impl; [exact Ia|]. rewrite <- (toWF_fe_I a Ia). now apply (clo_wf Hf).
+  Qed.
+
+  Lemma cut_hyps : forall Hf x,
+    (forall h, In h Hf -> isFa h = true) -> (forall h, In h Hf -> hRs (toWF h)) ->
+    isFa x = false -> holds (stepC (clo IB Hf) R) (isco co) x -> hRs x.
+  Proof.
+    intros Hf x HF HW Fx H. apply (cut R co Rok coF (clo IB Hf)); auto.
+    - intros a Ha. apply (clo_isFa IB Hf); auto. apply sys_parts.
+    - intros a Ia Ha. now apply (clo_true Hf).
+  Qed.
+
+  Lemma isFa_fety : forall t, isFa (fety t) = true.
+  Proof. reflexivity. Qed.
+
+  Lemma isFa_fe_I : forall a, isI a = true -> isFa (fe a) = true.
+  Proof.
+    intros a H. unfold isFa, fe, isI in *. rewrite hsym_map_head. destruct (hsym a) as [x|]; [|discriminate]. cbn [option_map].
+    apply andb_true_iff in H. destruct H as [H1 H2]. apply N.leb_le in H1. apply N.ltb_lt in H2.
+    unfold isF, isFE. apply orb_true_iff. left. apply andb_true_iff. split; [apply N.leb_le|apply N.ltb_lt]; lia.
+  Qed.
+
+  Lemma isI_hsym : forall a, isI a = true -> hsym a <> None.
+  Proof. intros a H. unfold isI in H. destruct (hsym a); [discriminate|discriminate H]. Qed.
+
+  Lemma isI_subst : forall a th, isI a = true -> isI (subst th a) = true.
+  Proof.
+    intros a th H. unfold isI in *. destruct (hsym a) as [x|] eqn:E; [|discriminate]. now rewrite (hsym_subst _ th _ E).
+  Qed.
+
+  Lemma isFa_wf_I : forall a, isI a = true -> isFa (wf a) = false.
+  Proof.
+    intros a H. unfold isFa, wf, isI in *. rewrite hsym_map_head. destruct (hsym a) as [x|]; [|discriminate]. cbn [option_map].
+    apply andb_true_iff in H. destruct H as [H1 H2]. apply N.leb_le in H1. apply N.ltb_lt in H2.
+    unfold isF, isFE, FETY. apply orb_false_iff. split.
+    - apply andb_false_iff. right. apply N.ltb_ge. lia.
+    - apply N.eqb_neq. lia.
+  Qed.
+
+  (** *** The main theorem: an implemented trait reference with well-formed input types is
+      WellFormed — i.e. all bounds of the trait hold, transitively. *)
+  Theorem wf_sound_traits :
+    (forall c, In c R -> is_impl c = true -> impl_wf_inst c /\ impl_wf_strict_inst c) ->
+    forall a, isI a = true -> (forall u, In u (insp a) -> hRs (wfty u)) -> hRs a -> hRs (wf a).
+  Proof.
+    intros HW a Ia Hin Ha. apply holds_derives in Ha. revert Ia Hin.
+    induction Ha as [a bs Hs Hc Hd IH]. intros Ia Hin.
+    destruct Hs as [c [th [HcR [Gt [Eh Eb]]]]].
+    destruct (core_ok_parts R Rok c HcR) as [Fn [Hh [Hb Hbr]]].
+    destruct (existsb isFa (cbody c)) eqn:EF.
+    - (* Implemented-From-Env: impossible without hypotheses *)
+      exfalso. destruct (Hbr eq_refl) as [Eq _].
+      assert (Ffe : isFa (fe a) = true) by (now apply isFa_fe_I).
+      apply (no_fromenv R co Rok (fe a) Ffe).
+      apply (derives_holds _ _ (gfpX (inst R) (isco co))); [apply gfpX_cosound|].
+      apply Hd.
+      + rewrite Eb, Eq. cbn [map]. rewrite fe_subst by exact Hh. rewrite Eh. now left.
+      + now apply (F_not_co' co coF).
+    - assert (Im : is_impl c = true).
+      { unfold is_impl. rewrite EF. cbn [negb]. rewrite andb_true_r. unfold isI in *. rewrite <- Eh in Ia.
+        destruct (hsym (chead c)) as [x|] eqn:E; [|congruence]. now rewrite (hsym_subst _ th _ E) in Ia. }
+      destruct (HW c HcR Im) as [W1 W2].
+      pose proof sys_parts as SP; destruct SP as [_ [_ [_ [_ [K _]]]]]. pose proof (K c HcR Im) as Ok. unfold impl_ok in Ok.
+      apply andb_true_iff in Ok. destruct Ok as [Ok Ofo]. apply andb_true_iff in Ok. destruct Ok as [OI Orr].
+      rewrite forallb_forall in OI. apply rrb_spec in Orr.
+      (* the input types of the header instance are well-formed *)
+      assert (HdrWF : forall u0, In u0 (insp (chead c)) -> hRs (wfty (subst th u0))).
+      { intros u0 Hu0. apply Hin. rewrite <- Eh. now apply (proj2 (inputs_subst_in th (chead c))). }
+      (* A: the input types of the where-clauses are well-formed (strict check + cut) *)
+      assert (A : forall u, In u (flat_map insp (cbody c)) -> hRs (wfty (subst th u))).
+      { intros u Hu. apply (cut_hyps (map (subst th) (strict_hyps c))).
+        - intros h Hh0. apply in_map_iff in Hh0. destruct Hh0 as [h0 [<- Hh0]]. unfold strict_hyps in Hh0.
+          apply in_map_iff in Hh0. destruct Hh0 as [u0 [<- _]]. reflexivity.
+        - intros h Hh0. apply in_map_iff in Hh0. destruct Hh0 as [h0 [<- Hh0]]. unfold strict_hyps in Hh0.
+          apply in_map_iff in Hh0. destruct Hh0 as [u0 [<- Hu0]]. cbn [fety subst]. now apply HdrWF.
+        - reflexivity.
+        - now apply W2. }
+      (* B: every where-clause instance has well-formed input types, hence (IH) is WellFormed *)
+      assert (B : forall b, In b (cbody c) -> hRs (wf (subst th b))).
+      { intros b Hbin. assert (Ib : isI b = true) by now apply OI.
+        apply IH.
+        - rewrite Eb. now apply in_map.
+        - apply isI_not_co. now apply isI_subst.
+        - now apply isI_subst.
+        - intros u' Hu'. destruct (proj2 (inputs_subst_cases th b) u' Hu') as [[u [Hu ->]]|[i [Hi Hv]]].
+          + apply A. apply in_flat_map. exists b. auto.
+          + apply Hin. rewrite <- Eh. apply (proj2 (inputs_of_value th (chead c)) Ofo i); [|exact Hv].
+            now apply (Orr b i Hbin). }
+      (* the standard check + cut *)
+      rewrite <- Eh. rewrite <- wf_subst by exact Hh.
+      apply (cut_hyps (map (subst th) (impl_hyps c))).
+      + intros h Hh0. apply in_map_iff in Hh0. destruct Hh0 as [h0 [<- Hh0]]. unfold impl_hyps in Hh0.
+        apply in_app_iff in Hh0. destruct Hh0 as [Hh0|Hh0]; apply in_map_iff in Hh0; destruct Hh0 as [x [<- Hx]].
+        * rewrite fe_subst by (apply isI_hsym; now apply OI). apply isFa_fe_I. apply isI_subst. now apply OI.
+        * reflexivity.
+      + intros h Hh0. apply in_map_iff in Hh0. destruct Hh0 as [h0 [<- Hh0]]. unfold impl_hyps in Hh0.
+        apply in_app_iff in Hh0. destruct Hh0 as [Hh0|Hh0]; apply in_map_iff in Hh0; destruct Hh0 as [x [<- Hx]].
+        * rewrite fe_subst by (apply isI_hsym; now apply OI). rewrite toWF_fe_I by (apply isI_subst; now apply OI).
+          now apply B.
+        * cbn [fety subst]. now apply HdrWF.
+      + rewrite wf_subst by exact Hh. apply isFa_wf_I. rewrite Eh. exact Ia.
+      + now apply W1.
+  Qed.
+
+  (** *** Struct fields: wf.rs's struct goal for one ground instantiation. *)
+  Definition adt_wf_inst (wcs fields : list ty) : Prop :=
+    forall th, (forall i, ground (th i)) -> forall u, In u (flat_map inputs fields) ->
+      holds (stepC (clo IB (map (subst th) (map fe wcs))) R) (isco co) (subst th (wfty u)).
+
+  Theorem wf_sound_fields : forall aty wcs fields k,
+    k = mkClause (wfty aty) (map wf wcs) -> In k R -> rrb k = true ->
+    (forall c, In c R -> hkey (chead c) = hkey (chead k) -> c = k) ->
+    forallb isI wcs = true -> hsym aty <> None -> fo aty = true ->
+    (forall f i, In f fields -> occurs i f = true -> occurs i aty = true) ->
+    adt_wf_inst wcs fields ->
+    forall th, (forall i, ground (th i)) ->
+      (forall u, In u (inputs (subst th aty)) -> hRs (wfty u)) ->
+      forall f u', In f fields -> In u' (inputs (subst th f)) -> hRs (wfty u').
+  Proof.
+    intros aty wcs fields k Ek Hk Hrr Hu HI Hs Hfo Hv HW th Gt Hdeep f u' Hf Hu'.
+    rewrite forallb_forall in HI.
+    assert (Self : hRs (wfty (subst th aty))).
+    { apply Hdeep. destruct aty as [c|g x|p|i]; cbn [hsym] in Hs; try congruence; cbn [subst inputs]; now left. }
+    assert (WC : forall w, In w wcs -> hRs (wf (subst th w))).
+    { intros w Hw. rewrite <- wf_subst by (apply isI_hsym; now apply HI).
+      apply (unfold_unique R co Rok k th Hk Hrr Hu).
+      - subst k. cbn [chead wfty subst]. exact Self.
+      - subst k. cbn [cbody]. now apply in_map. }
+    assert (A : forall u, In u (flat_map inputs fields) -> hRs (wfty (subst th u))).
+    { intros u Hu0. apply (cut_hyps (map (subst th) (map fe wcs))).
+      - intros h Hh. apply in_map_iff in Hh. destruct Hh as [h0 [<- Hh]]. apply in_map_iff in Hh. destruct Hh as [w [<- Hw]].
+        rewrite fe_subst by (apply isI_hsym; now apply HI). apply isFa_fe_I. apply isI_subst. now apply HI.
+      - intros h Hh. apply in_map_iff in Hh. destruct Hh as [h0 [<- Hh]]. apply in_map_iff in Hh. destruct Hh as [w [<- Hw]].
+        rewrite fe_subst by (apply isI_hsym; now apply HI). rewrite toWF_fe_I by (apply isI_subst; now apply HI). now apply WC.
+      - reflexivity.
+      - now apply HW. }
+    destruct (proj1 (inputs_subst_cases th f) u' Hu') as [[u [Hu0 ->]]|[i [Hi Hvv]]].
+    - apply A. apply in_flat_map. exists f. auto.
+    - apply Hdeep. apply (proj1 (inputs_of_value th aty) Hfo i); [|exact Hvv]. now apply (Hv f i).
+  Qed.
+End Sound.
+
+(** ** 5. The goals wf.rs builds, as goals of the model; the model of the check *)
+
+Fixpoint max_var (t : ty) : nat :=
+  match t with
+  | TVar i => S i
+  | TAp f x => Nat.max (max_var f) (max_var x)
+  | _ => O
+  end.
+
+Definition nvars_clause (c : clause) : nat :=
+  fold_right (fun t m => Nat.max (max_var t) m) (max_var (chead c)) (cbody c).
+
+Fixpoint foralls (n : nat) (g : goal) : goal :=
+  match n with O => g | S k => GForall (foralls k g) end.
+
+Fixpoint conj (gs : list goal) : goal :=
+  match gs with
+  | [] => GTrue
+  | [g] => g
+  | g :: r => GAnd g (conj r)
+  end.
+
+Definition hyps_of (l : list ty) : list hyp := map (fun a => mkHyp 0 (mkClause a [])) l.
+
+(** (number of parameters, hypotheses, conclusion) of [forall<..> { if (hyps) { concl } }] *)
+Definition wfgoal : Type := (nat * list hyp * goal)%type.
+
+Definition impl_wf_goal (c : clause) : wfgoal :=
+  (nvars_clause c, hyps_of (impl_hyps c),
+   conj (map GAtom (map wfty (flat_map insp (cbody c)) ++ [wf (chead c)]))).
+(** the strict variant of the first conjunct: only the header's input types are assumed *)
+Definition impl_strict_goal (c : clause) : wfgoal :=
+  (nvars_clause c, hyps_of (strict_hyps c), conj (map GAtom (map wfty (flat_map insp (cbody c))))).
+Definition adt_wf_goal (a : adt_decl) : wfgoal :=
+  (max_var (a_ty a), hyps_of (map fe (a_wcs a)),
+   conj (map GAtom (map wfty (flat_map inputs (a_fields a) ++ flat_map insp (a_wcs a))))).
+
+Definition goal_of (w : wfgoal) : goal := let '(n, hs, g) := w in foralls n (GIf hs g).
+
+(** The placeholders [sat] picks for [n] nested [forall]s over a placeholder-free program
+    and goal: innermost variable first. *)
+Fixpoint ph_list (n : nat) : list ty :=
+  match n with O => [] | S k => TPh (N.of_nat k) :: ph_list k end.
+
+Lemma phb_list_ph_list : forall n, phb_list (ph_list n) = N.of_nat n.
+Proof.
+  induction n as [|k IH]; [reflexivity|]. cbn [ph_list phb_list fold_right]. fold (phb_list (ph_list k)).
+  rewrite IH. cbn [phb]. lia.
+Qed.
+
+Lemma phb_goal_foralls : forall n g, phb_goal (foralls n g) = phb_goal g.
+Proof. induction n as [|k IH]; intro g; [reflexivity|]. cbn [foralls phb_goal]. apply IH. Qed.
+
+Lemma sat_foralls : forall P n k g,
+  phb_clauses (pclauses P) = 0%N -> phb_goal g = 0%N ->
+  (sat P [] (ph_list k) (foralls n g) <-> sat P [] (ph_list (n + k)) g).
+Proof.
+  intros P n. induction n as [|m IH]; intros k g HP Hg; [reflexivity|].
+  cbn [foralls sat]. unfold fresh. rewrite HP, phb_list_ph_list, phb_goal_foralls, Hg. cbn [phb_clauses fold_right].
+  replace (N.max 0 (N.max 0 (N.max (N.of_nat k) 0))) with (N.of_nat k) by lia.
+  change (TPh (N.of_nat k) :: ph_list k) with (ph_list (S k)). rewrite (IH (S k) g HP Hg).
+  replace (m + S k)%nat with (S m + k)%nat by lia. reflexivity.
+Qed.
+
+(** The oracle's verdict on one goal of the check. *)
+Definition wfgoal_verdict (fuel : nat) (s : rsys) (w : wfgoal) : option bool :=
+  let '(n, hs, g) := w in
+  if N.eqb (phb_clauses (pclauses (full_program s))) 0 && N.eqb (phb_goal (GIf hs g)) 0
+  then eval_if fuel s (ph_list n) hs g else None.
+
+Theorem wfgoal_verdict_correct : forall fuel s w b,
+  wfgoal_verdict fuel s w = Some b -> (b = true <-> sat (full_program s) [] [] (goal_of w)).
+Proof.
+  intros fuel s [[n hs] g] b H. unfold wfgoal_verdict in H.
+  destruct (N.eqb (phb_clauses (pclauses (full_program s))) 0 && N.eqb (phb_goal (GIf hs g)) 0) eqn:V; [|discriminate].
+  apply andb_true_iff in V. destruct V as [V1 V2]. apply N.eqb_eq in V1. apply N.eqb_eq in V2.
+  unfold goal_of. change (@nil ty) with (ph_list 0). rewrite (sat_foralls _ n 0 _ V1 V2).
+  rewrite Nat.add_0_r. now apply (sat_if_exact fuel).
+Qed.
+
+Definition all3 (l : list (option bool)) : option bool := fold_right and3 (Some true) l.
+
+Definition impl_goals (d : decls) : list wfgoal := map impl_wf_goal (d_impls d).
+Definition adt_goals (d : decls) : list wfgoal := map adt_wf_goal (d_adts d).
+
+(** Model of [checked_program]'s WF pass (fragment): every struct and impl goal is proved. *)
+Definition wf_check_model (fuel : nat) (d : decls) : option bool :=
+  all3 (map (wfgoal_verdict fuel (lower d)) (adt_goals d ++ impl_goals d)).
+(** The strict premise of the soundness theorem. *)
+Definition strict_ok (fuel : nat) (d : decls) : option bool :=
+  all3 (map (fun c => wfgoal_verdict fuel (lower d) (impl_strict_goal c)) (d_impls d)).
+
+(** ** 6. The conclusion, evaluated on concrete types (for the check) *)
+
+Definition evA (fuel : nat) (s : rsys) (a : ty) : option bool :=
+  if rr_allb (rs_R s) && groundb a then eval_atom fuel (rs_R s) (rs_co s) a else None.
+
+Theorem evA_correct : forall fuel s a b,
+  evA fuel s a = Some b -> (b = true <-> hR (rs_R s) (rs_co s) a).
+Proof.
+  intros fuel s a b H. unfold evA in H. destruct (rr_allb (rs_R s) && groundb a) eqn:V; [|discriminate].
+  apply andb_true_iff in V. destruct V as [V _]. apply rr_allb_spec in V. unfold hR.
+  now apply (eval_atom_correct fuel).
+Qed.
+
+Definition deep_wfb (fuel : nat) (s : rsys) (ts : list ty) : option bool :=
+  all3 (map (fun u => evA fuel s (wfty u)) ts).
+
+(** 0 = premise false (not implemented / not well-formed), 1 = conclusion holds,
+    2 = conclusion FAILS, 3 = inconclusive (fuel) *)
+Definition concl_trait (fuel : nat) (d : decls) (t : trait_decl) (args : list ty) : N :=
+  let s := lower d in
+  let a := subst (listth args) (t_ref t) in
+  match and3 (evA fuel s a) (deep_wfb fuel s (insp a)) with
+  | Some true =>
+      match and3 (evA fuel s (wf a)) (all3 (map (fun w => evA fuel s (subst (listth args) w)) (t_wcs t))) with
+      | Some true => 1 | Some false => 2 | None => 3
+      end
+  | Some false => 0
+  | None => 3
+  end%N.
+
+Definition concl_adt (fuel : nat) (d : decls) (ad : adt_decl) (args : list ty) : N :=
+  let s := lower d in
+  let t := subst (listth args) (a_ty ad) in
+  match deep_wfb fuel s (inputs t) with
+  | Some true =>
+      match deep_wfb fuel s (flat_map (fun f => inputs (subst (listth args) f)) (a_fields ad)) with
+      | Some true => 1 | Some false => 2 | None => 3
+      end
+  | Some false => 0
+  | None => 3
+  end%N.
+
+(** ** 7. Statements about the full program; the witness of the hole *)
+
+Lemma all3_true : forall l, all3 l = Some true -> forall x, In x l -> x = Some true.
+Proof.
+  induction l as [|a r IH]; intros H x Hx; [destruct Hx|]. cbn [all3 fold_right] in H. fold (all3 r) in H.
+  destruct a as [[|]|]; destruct (all3 r) as [[|]|]; cbn [and3] in H; try discriminate.
+  destruct Hx as [<-|Hx]; [reflexivity|]. now apply IH.
+Qed.
+
+Lemma subst_listth_nil : forall t, subst (listth []) t = t.
+Proof.
+  intro t. rewrite <- (subst_id t) at 2. apply subst_ext. intros i _. unfold listth. destruct i; reflexivity.
+Qed.
+
+(** Without hypotheses the full program (with the implied-bound rules) and the core mean the
+    same: implied-bound rules need a FromEnv fact to fire. *)
+Lemma elab_hyps_nil : forall fuel s, elab_hyps (S fuel) s [] = Some ([], []).
+Proof.
+  intros fuel s. unfold elab_hyps. cbn [filter forallb andb map]. unfold elab_env, elab.
+  rewrite Nat.add_comm. cbn [Nat.add elab_loop]. unfold fclose. cbn [fc]. cbn [map app phb_clauses fold_right].
+  reflexivity.
+Qed.
+
+Theorem holds_full_core : forall s a, rsys_ok s = true ->
+  (holdsP (full_program s) [] a <-> hR (rs_R s) (rs_co s) a).
+Proof.
+  intros s a Hok.
+  pose proof (sat_if_elab 1 s [] [] (GAtom a) [] [] Hok eq_refl (elab_hyps_nil 0 s)) as E.
+  cbn [sat map app] in E. rewrite subst_listth_nil in E. unfold holdsP, allc in E. cbn [app core_program pclauses pcoind] in E.
+  exact E.
+Qed.
+
+Definition holdsD (d : decls) (a : ty) : Prop := holdsP (full_program (lower d)) [] a.
+
+(** "the program passes well-formedness checking": the goals wf.rs builds are true. *)
+Definition wf_accepts (d : decls) : Prop :=
+  forall w, In w (adt_goals d ++ impl_goals d) -> sat (full_program (lower d)) [] [] (goal_of w).
+
+(** "every well-formed concrete type that implements a trait satisfies the trait's bounds
+    (transitively), and field types of well-formed struct instances are well-formed". *)
+Definition wf_conclusion (d : decls) : Prop :=
+  (forall a, isI a = true -> ground a -> (forall u, In u (insp a) -> holdsD d (wfty u)) ->
+     holdsD d a -> holdsD d (wf a)) /\
+  (forall ad th, In ad (d_adts d) -> (forall i, ground (th i)) ->
+     (forall u, In u (inputs (subst th (a_ty ad))) -> holdsD d (wfty u)) ->
+     forall f u', In f (a_fields ad) -> In u' (inputs (subst th f)) -> holdsD d (wfty u')).
+
+(** The property as stated (kept in full).  It is FALSE for the goals wf.rs builds:
+    [wf_implied_bounds_sound_refuted]. *)
+Definition wf_implied_bounds_sound : Prop :=
+  forall d, wf_sys_ok (lower d) = true -> wf_accepts d -> wf_conclusion d.
+
+Module WfExamples.
+  (* trait Hash {} struct NotHash {} struct Set<K> where K: Hash {} struct Vec<T> {}
+     trait Bar<K> where K: Hash {} impl<T> Bar<T> for Set<T> {}
+     trait Goo {} trait Foo where Self: Goo {}
+     impl<T> Goo for Vec<T> where T: Hash {}
+     impl<T> Foo for Vec<T> where Set<T>: Bar<T> {}
+     The last impl is accepted: WellFormed(Set<T>) is proved from FromEnv(Set<T>: Bar<T>), whose
+     implied bound is T: Hash — but nothing makes that hypothesis's own types well-formed:
+     Set<NotHash>: Bar<NotHash> holds, so Vec<NotHash>: Foo holds, Vec<NotHash> is well-formed,
+     and Vec<NotHash>: Goo does not hold. *)
+  Definition NotHash := tapp 0 []. Definition Set_ t := tapp 1 [t]. Definition Vec t := tapp 2 [t].
+  Definition Hash t := tapp 1000 [t]. Definition Bar t k := tapp 1001 [t; k].
+  Definition Goo t := tapp 1002 [t]. Definition Foo t := tapp 1003 [t].
+  Definition tFoo := mkTrait (Foo (TVar 0)) [Goo (TVar 0)].
+  Definition Dh := mkDecls
+    [mkTrait (Hash (TVar 0)) []; mkTrait (Bar (TVar 0) (TVar 1)) [Hash (TVar 1)];
+     mkTrait (Goo (TVar 0)) []; tFoo]
+    [mkAdt NotHash [] []; mkAdt (Set_ (TVar 0)) [Hash (TVar 0)] []; mkAdt (Vec (TVar 0)) [] []]
+    [mkClause (Bar (Set_ (TVar 0)) (TVar 0)) []; mkClause (Goo (Vec (TVar 0))) [Hash (TVar 0)];
+     mkClause (Foo (Vec (TVar 0))) [Bar (Set_ (TVar 0)) (TVar 0)]] [].
+
+  (** The model of the checker accepts, the strict premise fails, the conclusion fails. *)
+  Theorem wf_hole_witness :
+    wf_sys_ok (lower Dh) = true /\ wf_check_model 100 Dh = Some true /\ strict_ok 100 Dh = Some false /\
+    concl_trait 100 Dh tFoo [Vec NotHash] = 2%N.
+  Proof. repeat split; vm_compute; reflexivity. Qed.
+
+  Lemma holdsD_eval : forall a b, ground a -> eval_if 100 (lower Dh) [] [] (GAtom a) = Some b ->
+    (b = true <-> holdsD Dh a).
+  Proof.
+    intros a b G H. apply sat_if_exact in H. cbn [sat map app] in H. rewrite subst_listth_nil in H. exact H.
+  Qed.
+
+  Theorem wf_implied_bounds_sound_refuted : ~ wf_implied_bounds_sound.
+  Proof.
+    intro S. destruct (S Dh) as [C _].
+    - vm_compute. reflexivity.
+    - intros w Hw. apply (wfgoal_verdict_correct 100 (lower Dh) w true); [|reflexivity].
+      assert (A : wf_check_model 100 Dh = Some true) by (vm_compute; reflexivity).
+      apply (all3_true _ A). now apply in_map.
+    - assert (F : holdsD Dh (wf (Foo (Vec NotHash)))).
+      { apply C.
+        + reflexivity.
+        + reflexivity.
+        + intros u Hu. cbn in Hu. destruct Hu as [<-|[<-|[]]].
+          * apply (holdsD_eval _ true); [reflexivity|vm_compute; reflexivity|reflexivity].
+          * apply (holdsD_eval _ true); [reflexivity|vm_compute; reflexivity|reflexivity].
+        + apply (holdsD_eval _ true); [reflexivity|vm_compute; reflexivity|reflexivity]. }
+      apply (holdsD_eval _ false) in F; [discriminate|reflexivity|vm_compute; reflexivity].
+  Qed.
+
+  (** Non-vacuity of the partial theorem: a sound program where every premise is met.
+      trait Clone {} trait Ord where Self: Clone {} struct A {} impl Clone for A {} impl Ord for A {} *)
+  Definition A := tapp 0 [].
+  Definition Clone t := tapp 1000 [t]. Definition Ord t := tapp 1001 [t].
+  Definition Ds := mkDecls [mkTrait (Clone (TVar 0)) []; mkTrait (Ord (TVar 0)) [Clone (TVar 0)]]
+                           [mkAdt A [] []] [mkClause (Clone A) []; mkClause (Ord A) []] [].
+
+  Lemma Ds_ok : wf_sys_ok (lower Ds) = true.
+  Proof. vm_compute. reflexivity. Qed.
+
+  Lemma hR_step : forall C a, hR (rs_R (lower Ds)) (rs_co (lower Ds)) a ->
+    holds (stepC C (rs_R (lower Ds))) (isco (rs_co (lower Ds))) a.
+  Proof.
+    intros C a H. apply (holds_step_incl (inst (rs_R (lower Ds)))); [|exact H].
+    intros x bs Hi. exists bs. split; [now right|apply incl_refl].
+  Qed.
+
+  Example wf_sound_nonvacuous : hR (rs_R (lower Ds)) (rs_co (lower Ds)) (wf (Ord A)).
+  Proof.
+    apply (wf_sound_traits (lower Ds) Ds_ok).
+    - intros c Hc Hi.
+      assert (c = mkClause (Clone A) [] \/ c = mkClause (Ord A) []) as [->| ->].
+      { cbn in Hc. repeat (destruct Hc as [<-|Hc]; [try (now left); try (now right); discriminate Hi|]). destruct Hc. }
+      + split.
+        * intros th Gt. apply hR_step. apply (evA_correct 50 (lower Ds) _ true); [vm_compute; reflexivity|reflexivity].
+        * intros th Gt u [].
+      + split.
+        * intros th Gt. apply hR_step. apply (evA_correct 50 (lower Ds) _ true); [vm_compute; reflexivity|reflexivity].
+        * intros th Gt u [].
+    - reflexivity.
+    - intros u Hu. cbn in Hu. destruct Hu as [<-|[]].
+      apply (evA_correct 50 (lower Ds) _ true); [vm_compute; reflexivity|reflexivity].
+    - apply (evA_correct 50 (lower Ds) _ true); [vm_compute; reflexivity|reflexivity].
+  Qed.
+End WfExamples.
